@@ -86,6 +86,13 @@ pub fn run(seed: u64, n: usize, outdir: &str, _corpus: Option<&str>) -> std::io:
         let mut rng = Rng(sub);
         let go = GenOpts { force_space: false, allow_uncovered: false, with_user: 0, tie_heavy: rng.chance(1, 3) };
         let mut gd = gen_dict(&mut rng, &go);
+        // half of the dictionaries use a raw or dual bigram connector instead of matrix.def
+        // (duplicate feature rows make several ids share one row of the dual connector's matrix)
+        let kind = rng.below(4);
+        if kind >= 2 && gd.nright >= 2 && gd.nleft >= 2 {
+            let bg = crate::c07::gen_bigram_sized(&mut rng, false, false, gd.nright - 1, gd.nleft - 1);
+            gd.bigram = Some((bg.right_file(), bg.left_file(), bg.cost_file(), kind == 3));
+        }
         // user rows for the history (valid ids)
         let mut mk_user = |rng: &mut Rng, gd: &GenDict| -> Vec<Row> {
             let k = 1 + rng.below(3) as usize;
@@ -156,7 +163,8 @@ pub fn run(seed: u64, n: usize, outdir: &str, _corpus: Option<&str>) -> std::io:
             copt(&mapper, |(l, r)| format!("({}, {})", clist(l, |x| cn(x)), clist(r, |x| cn(x)))),
             bad_t
         );
-        let human = format!("{} ops={:?} malformed_last={:?}", base.human, ops, bad);
+        let human = format!("{} connector={:?} ops={:?} malformed_last={:?}", base.human, gd.bigram, ops, bad);
+        *dist.entry(format!("connector_{}", match &gd.bigram { None => "matrix", Some((_, _, _, false)) => "raw", Some(_) => "dual" })).or_default() += 1;
         *dist.entry(format!("ops_{}", ops.len())).or_default() += 1;
         *dist.entry(format!("maps_{}", ops.iter().filter(|o| matches!(o, Op::Map(..))).count())).or_default() += 1;
         *dist.entry(format!("malformed_{}", bad.is_some())).or_default() += 1;
